@@ -305,8 +305,9 @@ Proof. split; [reflexivity|]. cbn [start status deadline window_end]. unfold_con
 
 Lemma run_as_fold c evs h : run c evs h = fold_left step (evs ++ [(EDataIn, h)]) c.
 Proof.
-  unfold run. rewrite fold_left_app. cbn [fold_left]. unfold step; cbn [fst snd].
-  unfold apply_ev. destruct (status (advance (fold_left step evs c) h)); reflexivity.
+  unfold run. rewrite fold_left_app. cbn [fold_left].
+  set (c1 := fold_left step evs c). unfold step; cbn [fst snd].
+  unfold apply_ev. destruct (status (advance c1 h)); reflexivity.
 Qed.
 
 (* nothing but the expiry timer ends a connection whose client answers pings *)
@@ -355,6 +356,37 @@ Proof.
   reflexivity.
 Qed.
 
+(* before its firing time the expiry timer closes nothing *)
+Lemma no_expiry_before f h evs : forall c,
+  fire c = f -> h < f -> Forall (fun x : ev * Z => snd x <= h) evs ->
+  match status c with Closed Expiry _ => False | _ => True end ->
+  match status (fold_left step evs c) with Closed Expiry _ => False | _ => True end.
+Proof.
+  induction evs as [|[e tau] r IH]; intros c Hfc Hh Hev Hc; cbn [fold_left]; [exact Hc|].
+  inversion Hev as [|x l Htau Hr]; subst x l. cbn [snd] in Htau.
+  apply IH; [rewrite step_fire; exact Hfc|exact Hh|exact Hr|].
+  unfold step; cbn [fst snd]. unfold apply_ev.
+  assert (Hadv : match status (advance c tau) with Closed Expiry _ => False | _ => True end).
+  { unfold advance. destruct (status c) eqn:Ec; [|rewrite Ec; exact Hc].
+    destruct ((fire c <=? tau) && (fire c <=? deadline c)) eqn:E1; cbn [status].
+    - apply andb_true_iff in E1. lia.
+    - destruct (deadline c <? tau); cbn [status]; [exact I|rewrite Ec; exact I]. }
+  destruct (status (advance c tau)) eqn:Ea; [|rewrite Ea; exact Hadv].
+  destruct e; cbn [status close_with]; try rewrite Ea; exact I.
+Qed.
+
+Lemma idle_rounds_times ds : forall np,
+  Forall (fun d => 0 <= d < slack) ds ->
+  Forall (fun x : ev * Z => snd x <= np + ping_period * Z.of_nat (length ds)) (idle_rounds np ds).
+Proof.
+  induction ds as [|d r IH]; intros np Hd; cbn [idle_rounds]; [constructor|].
+  inversion Hd as [|x l Hd0 Hr]; subst x l.
+  constructor; [cbn [snd length]; unfold_consts; lia|].
+  constructor; [cbn [snd length]; unfold_consts; lia|].
+  eapply Forall_impl; [|apply (IH (np + ping_period) Hr)].
+  intros x Hx. cbn [length]. unfold_consts. lia.
+Qed.
+
 (* and it is still open as long as the token has not expired *)
 Lemma idle_stays_open t f ds :
   Forall (fun d => 0 <= d < slack) ds ->
@@ -363,45 +395,22 @@ Lemma idle_stays_open t f ds :
   status (run (start t f) (idle_rounds (t + ping_period) ds) h) = Open.
 Proof.
   intros Hd h Hh. pose proof (idle_any_duration t f ds Hd) as H. cbv zeta in H. fold h in H.
-  destruct (status _) eqn:Es; [reflexivity|]. destruct H as [-> ->].
-  (* closed at f by expiry, but the watcher bound says closure happened at a time <= h only if f <= h *)
-  exfalso. unfold run in Es.
-  set (c1 := fold_left step (idle_rounds (t + ping_period) ds) (start t f)) in *.
+  destruct (status (run (start t f) (idle_rounds (t + ping_period) ds) h)) eqn:Es; [reflexivity|].
+  destruct H as [Hw Ha]. exfalso.
+  assert (Hev : Forall (fun x : ev * Z => snd x <= h) (idle_rounds (t + ping_period) ds)).
+  { eapply Forall_impl; [|apply (idle_rounds_times ds (t + ping_period) Hd)].
+    intros x Hx. unfold h. unfold_consts. lia. }
+  pose proof (no_expiry_before f h _ (start t f) eq_refl Hh Hev I) as H1.
+  unfold run in Es.
+  remember (fold_left step (idle_rounds (t + ping_period) ds) (start t f)) as c1 eqn:Hc1.
   assert (Hf1 : fire c1 = f).
   { assert (Hu : upto f (start t f)) by (split; [reflexivity|exact I]).
-    apply (fold_upto f _ _ Hu). }
-  (* every event time and the horizon are < f, so the expiry branch of [advance] never fires *)
-  assert (Hall : forall evs c, fire c = f -> Forall (fun x => snd x <= h) evs ->
-                 (match status c with Closed Expiry _ => False | _ => True end) ->
-                 match status (fold_left step evs c) with Closed Expiry _ => False | _ => True end).
-  { induction evs as [|[e tau] r IH]; intros c Hfc Hev Hc; cbn [fold_left]; [exact Hc|].
-    inversion Hev as [|? ? Htau Hr]; subst. cbn [snd] in Htau.
-    apply IH; [rewrite step_fire; exact Hfc|exact Hr|].
-    unfold step; cbn [fst snd]. unfold apply_ev.
-    assert (Hadv : match status (advance c tau) with Closed Expiry _ => False | _ => True end).
-    { unfold advance. destruct (status c) eqn:Ec; [|rewrite Ec; exact Hc].
-      destruct ((fire c <=? tau) && (fire c <=? deadline c)) eqn:E1; cbn [status].
-      - apply andb_true_iff in E1. lia.
-      - destruct (deadline c <? tau); cbn [status]; [exact I|rewrite Ec; exact I]. }
-    destruct (status (advance c tau)) eqn:Ea; [|rewrite Ea; exact Hadv].
-    destruct e; cbn [status close_with]; try rewrite Ea; exact I. }
-  assert (Hev : Forall (fun x : ev * Z => snd x <= h) (idle_rounds (t + ping_period) ds)).
-  { subst h. clear -Hd. remember (t + ping_period) as np eqn:Hnp.
-    assert (Hgen : forall ds np, Forall (fun d => 0 <= d < slack) ds ->
-              Forall (fun x : ev * Z => snd x <= np + ping_period * Z.of_nat (length ds)) (idle_rounds np ds)).
-    { clear. induction ds as [|d r IH]; intros np Hd; cbn [idle_rounds]; [constructor|].
-      inversion Hd as [|? ? Hd0 Hr]; subst.
-      constructor; [cbn [snd length]; unfold_consts; lia|].
-      constructor; [cbn [snd length]; unfold_consts; lia|].
-      eapply Forall_impl; [|apply (IH (np + ping_period) Hr)].
-      intros x Hx. cbn [length]. lia. }
-    eapply Forall_impl; [|apply (Hgen ds np Hd)]. intros x Hx. subst np. lia. }
-  pose proof (Hall _ (start t f) eq_refl Hev I) as H1. fold c1 in H1.
+    rewrite Hc1. apply (fold_upto f _ _ Hu). }
   unfold advance in Es. destruct (status c1) eqn:E1.
   - destruct ((fire c1 <=? h) && (fire c1 <=? deadline c1)) eqn:E2; cbn [status] in Es.
     + apply andb_true_iff in E2. lia.
-    + destruct (deadline c1 <? h); cbn [status] in Es; [discriminate|congruence].
-  - rewrite E1 in Es. inversion Es; subst. exact H1.
+    + destruct (deadline c1 <? h); cbn [status] in Es; [inversion Es; congruence|congruence].
+  - rewrite E1 in Es. inversion Es; subst why0 at_ns0. rewrite Hw in H1. exact H1.
 Qed.
 
 (* a client that never answers is dropped when the first read deadline passes *)
@@ -410,11 +419,11 @@ Lemma unanswered_dropped t f k h :
   status (run (start t f) (pings_only (t + ping_period) k) h) = Closed ReadTimeout (t + pong_wait).
 Proof.
   intros Hf Hh Hk. unfold run.
-  assert (Hgen : forall k np c, status c = Open -> fire c = f -> deadline c = t + pong_wait -> t < np ->
-            let c' := fold_left step (pings_only np k) c in
+  assert (Hgen : forall n np c, status c = Open -> fire c = f -> deadline c = t + pong_wait -> t < np ->
+            let c' := fold_left step (pings_only np n) c in
             fire c' = f /\ deadline c' = t + pong_wait /\
             (status c' = Open \/ status c' = Closed ReadTimeout (t + pong_wait))).
-  { clear Hk. induction k as [|k IH]; intros np c Ho Hfc Hdc Hnp; cbn [pings_only fold_left]; [auto|].
+  { clear Hk. induction n as [|n IH]; intros np c Ho Hfc Hdc Hnp; cbn [pings_only fold_left]; [auto|].
     unfold step at 2; cbn [fst snd].
     destruct (status (advance c np)) eqn:Ea.
     - assert (Hc1 : status (apply_ev (advance c np) EPing np) = Open) by (unfold apply_ev; rewrite Ea; reflexivity).
